@@ -561,6 +561,9 @@ def parseChunk(raw):  # reading transfer encoded raw
         (yield None)
 
     size, sep, exts = line.partition(b';')
+    size = size.strip()
+    if not size or any(c not in b'0123456789abcdefABCDEF' for c in size):
+        raise HTTPException("Invalid chunk size '{0}'".format(size.decode('iso-8859-1')))
     try:
         size = int(size.strip().decode('ascii'), 16)
     except ValueError:  # bad size
